@@ -30,7 +30,7 @@ def obligations(tier):
         Ob("C03.last_note_end", "CH", "harness.h_instrument", "last_note_end", 120, funcs=(IN + "InstrumentTrack.last_note_end_timestamp",), bounds="<=4 notes, symbolic end times"),
     ]
     obs += _ned("C03.note_event_dataflow", tier, (IN + "NoteEvent.from_parsed_data",))
-    idxs = ["0,1", "7", "0,5,4"] if tier == "quick" else ["0,1", "7", "0,5,4", "7,6", "1,2,3", "0,0", "4,3", "0,1,2,3"]
+    idxs = ["0,1", "7", "0,5,4"] if tier == "quick" else ["0,1", "7", "0,5,4", "7,6", "1,2,3", "0,0", "4,3", "0,1,2"]
     for ix in idxs:
         obs.append(Ob(f"C03.integrated.note_section[{ix}]", "CH", "harness.h_integrated", "note_section", 1200, {"VF_IDX": ix, "VF_ORDER": 1},
                       funcs=(IN + "InstrumentTrack.from_chart_lines", IN + "NoteEvent.from_parsed_data"),
